@@ -42,6 +42,7 @@ use serde::ser::SerializeStruct;
 use tokio::sync::mpsc;
 use tokio::time::Instant;
 use tracing::debug;
+use tracing::error;
 use tracing::trace;
 
 use super::InboundEvent;
@@ -75,6 +76,9 @@ pub struct HardState {
     pub voted_for: Option<VotedFor>,
 }
 
+/// Writes the hard state to stable storage (installed by `Raft::new`).
+pub type HardStatePersister = Arc<dyn Fn(&HardState) -> Result<()> + Send + Sync>;
+
 pub struct SharedState {
     pub node_id: u32,
 
@@ -93,6 +97,10 @@ pub struct SharedState {
     /// Shared lease state between Raft loop (writer) and EmbeddedClient (reader).
     /// Arc ensures the same allocation is shared across role transitions via clone().
     pub lease: Arc<ReadLease>,
+
+    /// Persists `hard_state` whenever term or vote change, i.e. before the change can be
+    /// observed by a peer (a vote or an RPC reply). `None` until `Raft::new` installs it.
+    hard_state_persister: Option<HardStatePersister>,
 }
 
 impl Clone for SharedState {
@@ -103,6 +111,7 @@ impl Clone for SharedState {
             commit_index: self.commit_index,
             current_leader_id: AtomicU32::new(self.current_leader_id.load(Ordering::Acquire)),
             lease: Arc::clone(&self.lease),
+            hard_state_persister: self.hard_state_persister.clone(),
         }
     }
 }
@@ -161,6 +170,30 @@ impl SharedState {
             commit_index: last_applied_index_option.unwrap_or(0),
             current_leader_id: AtomicU32::new(0),
             lease: Arc::new(ReadLease::new()),
+            hard_state_persister: None,
+        }
+    }
+
+    /// Install the function that writes the hard state to stable storage.
+    pub fn set_hard_state_persister(
+        &mut self,
+        persister: HardStatePersister,
+    ) {
+        self.hard_state_persister = Some(persister);
+    }
+
+    /// Save the hard state if `before` differs from it (term or vote changed).
+    fn persist_hard_state_if_changed(
+        &self,
+        before: HardState,
+    ) {
+        let changed = before.current_term != self.hard_state.current_term
+            || before.voted_for != self.hard_state.voted_for;
+        if changed
+            && let Some(persist) = &self.hard_state_persister
+            && let Err(e) = persist(&self.hard_state)
+        {
+            error!(?e, "persisting hard state failed");
         }
     }
 
@@ -194,18 +227,24 @@ impl SharedState {
         &mut self,
         term: u64,
     ) {
+        let before = self.hard_state;
         self.hard_state.current_term = term;
+        self.persist_hard_state_if_changed(before);
     }
 
     fn increase_current_term(&mut self) {
+        let before = self.hard_state;
         self.hard_state.current_term += 1;
+        self.persist_hard_state_if_changed(before);
     }
 
     pub fn voted_for(&self) -> Result<Option<VotedFor>> {
         Ok(self.hard_state.voted_for)
     }
     pub fn reset_voted_for(&mut self) -> Result<()> {
+        let before = self.hard_state;
         self.hard_state.voted_for = None;
+        self.persist_hard_state_if_changed(before);
         Ok(())
     }
     /// Update voted_for and return true if this represents a new leader commitment
@@ -239,7 +278,9 @@ impl SharedState {
             None => new_vote.committed,
         };
 
+        let before = self.hard_state;
         self.hard_state.voted_for = Some(new_vote);
+        self.persist_hard_state_if_changed(before);
         Ok(is_new_commit)
     }
 }
